@@ -1,3 +1,18 @@
-import UcantoModel.Model.Basic
-import UcantoModel.Model.Patterns
+-- Root of the `UcantoModel` library: the executable model (Model/*), the declarative specification
+-- (Spec/*), helper lemmas (Lemmas/*) and one file of property theorems per property (Props/*).
+import UcantoModel.Props.C01
+import UcantoModel.Props.C02
+import UcantoModel.Props.C03
+import UcantoModel.Props.C04
+import UcantoModel.Props.C05
+import UcantoModel.Props.C06
+import UcantoModel.Props.Termination
+import UcantoModel.Props.C08
+import UcantoModel.Props.C09
+import UcantoModel.Props.C11
+import UcantoModel.Props.C12
+import UcantoModel.Props.C14
 import UcantoModel.Props.C16
+import UcantoModel.Props.C17
+import UcantoModel.Props.C17Facts
+import UcantoModel.Props.C20
